@@ -290,6 +290,19 @@ func (m *Machine) global(v *ssa.Global) Ptr {
 	p, ok := m.globals[v]
 	if !ok {
 		p = newCell(zero(v.Type().(*types.Pointer).Elem()))
+		// sentinel errors of packages whose initialisers the executor does not run
+		if v.Pkg != nil && v.Pkg.Pkg != nil {
+			switch v.Pkg.Pkg.Path() + "." + v.Name() {
+			case "context.Canceled":
+				*p = m.errorValue("context canceled")
+			case "context.DeadlineExceeded":
+				*p = m.errorValue("context deadline exceeded")
+			case "io.EOF":
+				*p = m.errorValue("EOF")
+			case "io.ErrUnexpectedEOF":
+				*p = m.errorValue("unexpected EOF")
+			}
+		}
 		m.globals[v] = p
 	}
 	return p
